@@ -29,4 +29,7 @@ def units(ctx):
     us = [frame_unit('C09')]
     us += pyvc_units(core_glue.contracts(), 'C09', core_glue.setup)
     us += pyvc_units(utils.contracts(), 'C09', utils.setup)
+    from vlib.pyvc.unit import contract_unit
+    us += [contract_unit(c, world_setup=utils.setup_input)
+           for c in utils.input_contracts()]
     return us
